@@ -25,7 +25,8 @@ except OSError:
     print('refused')
 """
 
-ACTIVITIES = ["none", "factory-read", "factory-write", "enter-exit-shared", "factory-read-twice", "store-name-listing"]
+ACTIVITIES = ["none", "factory-read", "factory-write", "enter-exit-shared", "factory-read-twice", "store-name-listing",
+              "path-lock-dot-spelling", "path-lock-slash-spelling", "path-lock-dotdot-spelling"]
 
 
 def corpus_real():
@@ -33,7 +34,7 @@ def corpus_real():
     for target in ("db", "ctx"):
         for shared in (True, False):
             for act in ACTIVITIES:
-                if act == "enter-exit-shared" and not shared:
+                if (act == "enter-exit-shared" or act.startswith("path-lock-")) and not shared:
                     continue  # would have to wait for A
                 out.append({"kind": "real", "target": target, "holder_shared": shared, "activity": act, "seed": 0})
     return out
@@ -99,6 +100,16 @@ def run_real(case, drv):
                         pass
                 elif act == "store-name-listing" and case["target"] == "ctx":
                     obj.list_all_names()
+                elif act.startswith("path-lock-"):
+                    # the same lock file, locked (shared) and left again under another spelling of its path
+                    from pharmpy.internals.fs.lock import path_lock
+                    d, f = os.path.split(str(lockfile))
+                    other = {"path-lock-dot-spelling": d + "/./" + f, "path-lock-slash-spelling": d + "//" + f,
+                             "path-lock-dotdot-spelling": d + "/" + os.path.basename(d) + "/../" + f}[act]
+                    if act == "path-lock-dotdot-spelling":
+                        os.makedirs(os.path.join(d, os.path.basename(d)), exist_ok=True)
+                    with path_lock(other, shared=True):
+                        pass
             except Exception as e:
                 errs.append(f"B: {type(e).__name__}: {e}")
 
